@@ -486,9 +486,9 @@ theorem errorf_sat {n : Int} {s : St} {l0 l : Lexer} (h : l.pos ≤ n ∧ (l.mp 
     omega
   · rw [badInit_push']; exact h.2.2
 
-theorem errorfAt_sat {n : Int} {s : St} {l0 l : Lexer} {pos : Int} (h : pos ≤ n ∧ (l.mp : Int) ≤ n ∧ l.bad = 0) :
-    Sat (errorfAt l pos) (Post n s l0) := by
-  refine ⟨_, rfl, fun _ h => absurd h (by simp), fun _ => ⟨⟨{ typ := .tError, pos := pos.toNat, val := [] }, by simp, Or.inr rfl⟩, ?_, ?_⟩⟩
+theorem errorfAt_sat {n : Int} {s : St} {l0 l : Lexer} {pos : Int} {cls : UInt8} (h : pos ≤ n ∧ (l.mp : Int) ≤ n ∧ l.bad = 0) :
+    Sat (errorfAt l pos cls) (Post n s l0) := by
+  refine ⟨_, rfl, fun _ h => absurd h (by simp), fun _ => ⟨⟨{ typ := .tError, pos := pos.toNat, val := [cls] }, by simp, Or.inr rfl⟩, ?_, ?_⟩⟩
   · simp only [mp_push']
     omega
   · rw [badInit_push']; exact h.2.2
